@@ -324,6 +324,12 @@ class Interp:
                     c = True
                 elif z3.is_false(c):
                     c = False
+            if is_z3(c) and self.feasible is not None:
+                # a branch whose guard the pruning oracle refutes is not taken at all (no merge)
+                if not self._live(z3.And(guard, z3.Not(c))):
+                    c = True
+                elif not self._live(z3.And(guard, c)):
+                    c = False
             if not is_z3(c):
                 return self.block(s.body if c else s.orelse, env, guard, rets)
             e1 = self._snap(env)
